@@ -126,6 +126,18 @@ def run_check(prop, args, fn, gen, rule, signature, nontrivial, candidates, engi
         hists = [gen(rng, args.tier) for _ in range(per_round)]
         for h in hists:
             h.setdefault('hashseed', rng.choice(pool.hashseeds))
+            # swarm-selected buggify: poison allocator and a wall clock that moves between operations
+            k = rng.random()
+            if k < 0.15:
+                h.setdefault('poison', {'mode': 0, 'word': rng.choice([0, 0xFFFFFFFFFFFFFFFF, 0xCDCDCDCDCDCDCDCD, 0x3FF0000000000000])})
+            elif k < 0.25:
+                h.setdefault('poison', {'mode': 1, 'seed': rng.randrange(1, 2 ** 63)})
+            if rng.random() < 0.2:
+                h.setdefault('ticks', [rng.choice([0.0, 0.5, 6.0, 61.0, 3600.0, 86400.0]) for _ in range(rng.randrange(1, 5))])
+            if h.get('poison'):
+                rep.add_counts(rep.fault_counts, {'poison:' + ('stream' if h['poison'].get('mode') else 'word'): 1})
+            if h.get('ticks'):
+                rep.add_counts(rep.fault_counts, {'clock_ticks_between_operations': 1})
         # group by hash seed so that each job is served by a zygote of that seed
         hists.sort(key=lambda h: h['hashseed'])
         results = []
